@@ -86,6 +86,10 @@ def _check(case, entry, v, out):
     v.nontrivial = nfaulted > 0 and last_inv >= 3
     v.violations = out
     v.tag("entry:" + entry, f"hook-invocations={min(last_inv, 12)}")
+    if case["placement"].get("log", True) is False or case["placement"].get("metric", True) is False:
+        v.tag("only-one-of-on_metric/on_log")
+    if case["cfg"].get("operation", "op") is None:
+        v.tag("no-operation-name")
     return v
 
 
@@ -114,6 +118,12 @@ def case_st(draw):
         case["entry"] = draw(st.sampled_from(C.RETRY_ENTRIES + ["Retry.context.call", "adecorator.call"]))
     if gen.chance(draw, 0.3, "c15-timeline"):
         case["placement"]["timeline"] = False
+    # callers that install only one of the two observability hooks and / or name no operation (fast paths that
+    # exist only for such calls must isolate the remaining hook just the same)
+    if gen.chance(draw, 0.3, "c15-one-hook"):
+        case["placement"][draw(st.sampled_from(["log", "metric"]))] = False
+    if gen.chance(draw, 0.3, "c15-no-opname"):
+        case["cfg"]["operation"] = None
     return case
 
 
